@@ -97,6 +97,7 @@ struct Inner {
     unsafes: Vec<String>,
     calls: Vec<String>,
     pathcalls: Vec<String>,
+    arms: Vec<String>,
 }
 
 impl Inner {
@@ -244,6 +245,32 @@ impl<'ast> Visit<'ast> for Inner {
         }
         syn::visit::visit_expr_call(self, e);
     }
+    fn visit_arm(&mut self, a: &'ast syn::Arm) {
+        // top-level alternatives of an or-pattern (R-ORGUARD splits `A | B if G => X` into one arm per alternative)
+        let alts: Vec<String> = match &a.pat {
+            syn::Pat::Or(o) => o.cases.iter().map(|c| span_json(c.span())).collect(),
+            _ => Vec::new(),
+        };
+        let guard = match &a.guard {
+            Some((_, g)) => span_json(g.span()),
+            None => "null".to_string(),
+        };
+        let end = match &a.comma {
+            Some(c) => br(c.span()).1,
+            None => br(a.body.span()).1,
+        };
+        self.arms.push(format!(
+            "{{\"span\":[{},{}],\"pat\":{},\"alts\":[{}],\"guard\":{},\"body\":{},\"body_is_block\":{}}}",
+            br(a.pat.span()).0,
+            end,
+            span_json(a.pat.span()),
+            alts.join(","),
+            guard,
+            span_json(a.body.span()),
+            matches!(&*a.body, syn::Expr::Block(_))
+        ));
+        syn::visit::visit_arm(self, a);
+    }
     fn visit_expr_await(&mut self, e: &'ast syn::ExprAwait) {
         self.calls.push(format!("{{\"name\":\"await\",\"span\":{},\"dot\":{}}}", span_json(e.span()), br(e.dot_token.span()).0));
         syn::visit::visit_expr_await(self, e);
@@ -316,7 +343,7 @@ impl Out {
             _ => "null".into(),
         };
         self.items.push(format!(
-            "{{\"kind\":\"fn\",\"key\":{},\"ctx\":{},\"span\":{},\"attrs\":{},\"vis\":{},\"sig\":{},\"body\":{},\"tail\":{},\"loops\":[{}],\"closures\":[{}],\"macros\":[{}],\"cfgs\":[{}],\"unsafes\":[{}],\"calls\":[{}],\"pathcalls\":[{}],\"nested\":[{}]}}",
+            "{{\"kind\":\"fn\",\"key\":{},\"ctx\":{},\"span\":{},\"attrs\":{},\"vis\":{},\"sig\":{},\"body\":{},\"tail\":{},\"loops\":[{}],\"closures\":[{}],\"macros\":[{}],\"cfgs\":[{}],\"unsafes\":[{}],\"calls\":[{}],\"pathcalls\":[{}],\"arms\":[{}],\"nested\":[{}]}}",
             js(&key),
             js(ctx),
             span_json(whole),
@@ -332,6 +359,7 @@ impl Out {
             inner.unsafes.join(","),
             inner.calls.join(","),
             inner.pathcalls.join(","),
+            inner.arms.join(","),
             inner.nested.join(",")
         ));
     }
